@@ -503,3 +503,35 @@ func (it *Interp) sliceConcBytes(s Slice) ([]byte, bool) {
 	}
 	return out, true
 }
+
+// slotName describes slot idx of object o as a field path of its type.
+func (it *Interp) slotName(o *Object, idx int) string {
+	if o.T == nil {
+		return o.Site
+	}
+	return typeShort(o.T) + it.slotPath(o.T, idx)
+}
+
+func typeShort(t types.Type) string {
+	return types.TypeString(t, func(p *types.Package) string { return p.Name() })
+}
+
+func (it *Interp) slotPath(t types.Type, idx int) string {
+	switch u := t.Underlying().(type) {
+	case *types.Struct:
+		off := 0
+		for i := 0; i < u.NumFields(); i++ {
+			n := it.slotCount(u.Field(i).Type())
+			if idx < off+n {
+				return "." + u.Field(i).Name() + it.slotPath(u.Field(i).Type(), idx-off)
+			}
+			off += n
+		}
+	case *types.Array:
+		es := it.slotCount(u.Elem())
+		if es > 0 {
+			return fmt.Sprintf("[%d]", idx/es) + it.slotPath(u.Elem(), idx%es)
+		}
+	}
+	return ""
+}
